@@ -9,13 +9,13 @@ chk("C01", "model_checking",
 
 chk("C02", "model_checking",
     "stateless complete enumeration of event programs x start times x queue parameters x probe placements on the real Runtime, causal timestamp oracle",
-    "Every event program (forest) of up to 4 (quick) / 5 (thorough) events with delays around bucket and year boundaries, on 3 start times and 4-6 queue parameterisations, each run plainly and with an add_event probe (at now: must be accepted; 1ns, t, start before now: must panic, leave the clock and the run untouched) placed before run and inside every handler. Exhaustive over that grid; the clock/timestamp relation needs exactly this kind of universally quantified small-scope check.",
+    "Every event program (forest) of up to 4 (quick) / 5 (thorough) events with delays around bucket and year boundaries, on 3 start times and 4-6 queue parameterisations, each run plainly, with an add_event probe (at now: must be accepted; 1ns, t, start before now: must panic, leave the clock and the run untouched) placed before run and inside every handler, and stepped (dispatch_n_events(k) for every k, then an external add at every time around the program's timestamps, then run to the end). At the network level, messages injected through add_message_onto / handle_message_on at 8 offsets around the reported time, before run and while paused, on 4 start times. Exhaustive over that grid; the clock/timestamp relation needs exactly this kind of universally quantified small-scope check.",
     "Bounded program size and delay alphabet; expected timestamps computed causally from the program, independent of the tie rule.",
     "DESIGN.md section 4, C02")
 
 chk("C03", "model_checking",
     "explicit-state BFS of the real CQueue with a tie-order oracle + complete enumeration of tie-heavy runtime programs (differential over queue parameters) + all emission sequences of a network handler",
-    "Queue layer: the C01 state space with fetch_next required to return exactly the head of the reference list ordered by (time, current-instant first, scheduling order). Runtime layer: all programs of up to 4/5 events over a parameter-independent delay alphabet, run on 5 queue parameterisations and with unrelated future events added; logs must equal the rule and each other. Net layer: all sequences of up to 5/7 actions (direct sends, latency-channel sends, zero and non-zero self-schedules) emitted by one handler.",
+    "Queue layer: the C01 state space with fetch_next required to return exactly the head of the reference list ordered by (time, current-instant first, scheduling order). Runtime layer: all programs of up to 4/5 events over a parameter-independent delay alphabet, run on 5 queue parameterisations and with unrelated future events added; logs must equal the rule and each other. Net layer: all sequences of up to 5/7 actions (direct sends, latency-channel sends, zero and non-zero self-schedules) emitted by one handler, plus long bursts (16..70 events, thorough up to 300) of every periodic pattern of period 1..3 over six actions.",
     "cqueue backend only (default features). Across different receiving modules only parameter-independence of the order is demanded.",
     "DESIGN.md section 4, C03")
 
@@ -45,19 +45,19 @@ chk("C16", "model_checking",
 
 chk("C17", "model_checking",
     "complete enumeration of flat dotted-key configurations x include orders on a real Sim against a reference matcher; enumeration of typed access sequences for the type rule",
-    "Every configuration of 1-2 entries over 310 candidate keys (segments a, ab, b, aß, <any> at depth 1-3, properties x and y.z), every 3-entry configuration over the 60 shallow keys (quick) / all keys (thorough), included before, after, or split around node creation, observed on 11 module paths of depth 1-4; props_keys and values must equal the reference matcher's. Type rule: every sequence of 3/4 typed reads/writes over 5 types on 4 configured values and an absent property.",
+    "Every configuration of 1-2 entries over 310 candidate keys (segments a, ab, b, aß, <any> at depth 1-3, properties x and y.z), every 3-entry configuration with at most one deep key (quick) / over all keys (thorough), each in every file order of its entries, included before, after, or split around node creation, observed on 11 module paths of depth 1-4; props_keys and values must equal the reference matcher's. Type rule: every sequence of 3/4 typed reads/writes over 5 types on 4 configured values and an absent property.",
     "Flat keys only; when several entries match one property any of their values is accepted.",
     "DESIGN.md section 4, C17")
 
 chk("C18", "model_checking",
     "complete enumeration of a bounded NDL grammar with an independent reference elaborator (conformance) + exhaustive single-point mutation (semantic menu and every scalar x token menu) for totality",
-    "All 2048 documents of an 11-feature grammar are built into a real Sim and compared (module paths with registered software, gate clusters, connections with link metrics) with a reference elaborator; 17 semantic single-point mutations (one per error cause in the statement) on all 2048 documents must yield an error; every scalar of 4 hand-written + 64 (quick) / 2048 (thorough) generated documents is replaced by each of 75 garbled or dangling tokens and parsing + elaboration must never panic.",
+    "All 8192 documents of a 13-feature grammar (incl. several fields typed with one generic parameter and size-one clusters) are built into a real Sim and compared (module paths with registered software, gate clusters, connections with link metrics) with a reference elaborator; 17 semantic single-point mutations (one per error cause in the statement) on all 8192 documents must yield an error; every scalar of 4 hand-written + 64 (quick) / 8192 (thorough) generated documents is replaced by each of 75 garbled or dangling tokens and parsing + elaboration must never panic.",
     "Build-phase panics on descriptions outside the statement's precondition (gate connected to itself or to more than two peers, duplicate/empty submodule names, non-numeric or negative link parameters) are tolerated and counted, identified by their message.",
     "DESIGN.md section 4, C18")
 
 chk("C05", "model_checking",
-    "complete enumeration of async task scripts (1-3 tasks, 1-3 steps from a 125-step alphabet, optional module restart) on a real simulation against a reference interpreter with exact virtual time",
-    "Every single-task script of up to 2 (quick) / 3 (thorough) steps, every two-task combination (1 | 1) and (1 | 2) steps (thorough: also three tasks), and every script of up to 2 steps with the module shut down and restarted, over an alphabet of sleeps, sleep_until, timeouts (over sleep, pending, far-future, message-fed flag), biased selects in both branch orders, create-poll-drop, resets, intervals with the three missed-tick behaviours and busy gaps around the 5 ms tolerance. Each await must return at exactly the computed instant with the computed value, every joined task must finish and the run must end within [last completion, latest finite deadline registered].",
+    "complete enumeration of async task scripts (1-3 tasks, 1-3 steps from a 151-step alphabet, optional module restart) on a real simulation against a reference interpreter with exact virtual time",
+    "Every single-task script of up to 2 (quick) / 3 (thorough) steps, every two-task combination (1 | 1) and (1 | 2) steps (quick: first task over a core sub-alphabet; thorough: full alphabet, plus three tasks over the core), and every script of up to 2 steps with the module shut down and restarted, over an alphabet of 151 steps: sleeps, sleep_until, timeouts (over sleep, pending, far-future, message-fed flag), biased selects in both branch orders, create-poll-drop, resets before/after the first poll (to another, the same, an earlier or an already passed deadline, also after another timer ran), Interval::reset, intervals with the three missed-tick behaviours and busy gaps around the 5 ms tolerance. Each await must return at exactly the computed instant with the computed value, every joined task must finish and the run must end within [last completion, latest finite deadline registered].",
     "A message-fed future that becomes ready at exactly a competing deadline is a same-instant tie between two events and accepts both results. Futures polled with changing wakers are outside the alphabet.",
     "DESIGN.md section 4, C05")
 
@@ -81,7 +81,7 @@ chk("C12", "model_checking",
 
 chk("C19", "model_checking",
     "complete enumeration of module multigraphs and queries on a real simulation against a reference adjacency list",
-    "All multigraphs on up to 4 (quick) / 5 (thorough) modules with parallel chains, self chains, the first chain routed directly / through one transit gate on each module / through 15 transit gates (16 hops). Global view, connected, bidirectional, spanned from every root, dijkstra from every source (first edge of a BFS-minimal path), filter_nodes for every subset, filter_edges for every single edge.",
+    "All multigraphs on up to 4 (quick) / 5 (thorough) modules with parallel chains (up to 2 per pair for 3 modules, thorough also for 4), self chains, the first chain routed directly / through one transit gate on each module / through 15 transit gates (16 hops). Global view, connected, bidirectional, spanned from every root, dijkstra from every source (first edge of a BFS-minimal path), filter_nodes for every subset, filter_edges for every single edge.",
     "Chains longer than 16 hops are outside the supported range.",
     "DESIGN.md section 4, C19")
 
@@ -93,7 +93,7 @@ chk("C04", "exploration",
 
 chk("C06", "exploration",
     "complete grid of wake-up pattern x trigger x spawn kind x number of runnable tasks on a real simulation; findings matched by predicates over the case",
-    "12 patterns (N sleepers on one deadline, oneshot chain, Notify, Semaphore, broadcast, one task draining N messages, handler spawning N tasks, join of N handles, start stage, restart, timer-then-notify chain, yield) x tokio::spawn / spawn_local x every N in 1..70 plus 100, 127..130, 200, 500, 1000 (thorough 2000, 5000). Every task logs the simulated time right after its await, which must equal the enabling instant; all awaited conditions must be observed; a bystander module's trace must be unchanged. Two documented findings (KNOWN_FINDINGS.json) are matched by predicates over the case, everything else is a violation.",
+    "15 patterns (N sleepers on one deadline, oneshot chain, Notify, Semaphore, broadcast, one task draining N messages, handler spawning N tasks, join of N handles, start stage, restart, timer-then-notify chain, yield, tasks released by a processing element that consumes the message / in its event_start hook / in its event_end hook) x tokio::spawn / spawn_local x every N in 1..70 plus 100, 127..130, 200, 500, 1000 (thorough 2000, 5000). Every task logs the simulated time right after its await, which must equal the enabling instant; all awaited conditions must be observed; a bystander module's trace must be unchanged. Two documented findings (KNOWN_FINDINGS.json) are matched by predicates over the case, everything else is a violation.",
     "Grid exhaustive, not 'thousands of tasks' in general. A failing case is classified from its inputs only (spawn kind, polls needed, budgeted operations per poll, explicit yield).",
     "DESIGN.md section 4, C06")
 
@@ -105,18 +105,18 @@ chk("C09", "model_checking",
 
 chk("C13", "fault_enumeration",
     "enumeration of every panic placement (module x callback x occurrence, singles and pairs) x stereotypes, differential against the real run in which the faulty module shuts down at the same point",
-    "Panics in start stage 0/1, the 1st/2nd/3rd/5th message, tear-down and a joined task of one or two of four modules, each with catching or non-catching stereotype (288 placements). run() must return; the healthy modules' complete traces must equal those of the silent variant; a module that panicked in a callback must not be activated again before tear-down; the error must name exactly the non-catching panicking modules; a clean follow-up simulation in the same process must reproduce the clean trace.",
+    "Panics in start stage 0/1, the 1st/2nd/3rd/5th message (thorough: also 4th/6th/7th), tear-down and a joined task of one, two or three of five modules, each with catching or non-catching stereotype (4912 placements quick, 12166 thorough). run() must return; the healthy modules' complete traces must equal those of the silent variant; a module that panicked in a callback must not be activated again before tear-down; the error must name exactly the non-catching panicking modules; a clean follow-up simulation in the same process must reproduce the clean trace.",
     "Joined-task panics: only the unambiguous part is asserted (see DESIGN.md C13). Tear-down of a panicked module (at_sim_end and the task polling it implies) is not counted as a wake-up.",
     "DESIGN.md section 4, C13")
 
 chk("C14", "model_checking",
     "complete enumeration of processing stacks (global x per-module, append/replace) x element behaviours on a real simulation; expected call log computed directly",
-    "Every global stack of up to 3 (quick) / 4 (thorough) and per-module stack of up to 2 / 3 elements over six behaviours (pass, modify, consume kind 1 / 2, send on event_start / event_end); the module sees a start stage, two messages, a timer wake-up and tear-down. The complete call log (event_start in order, incoming until consumed, handler iff not consumed, event_end reversed, emitted messages in program order at a sink) must equal the bracket structure.",
+    "Every global stack of up to 3 (quick) / 4 (thorough) and per-module stack of up to 2 / 3 elements (appended element by element, appended as one multi-element stack, or replacing the global stack) over six behaviours (pass, modify, consume kind 1 / 2, send on event_start / event_end); the module sees a start stage, two messages, a timer wake-up and tear-down. The complete call log (event_start in order, incoming until consumed, handler iff not consumed, event_end reversed, emitted messages in program order at a sink) must equal the bracket structure.",
     "Panicking elements and stacks changed at run time are outside the alphabet.",
     "DESIGN.md section 4, C14")
 
 chk("C20", "model_checking",
     "complete enumeration of generated simulations x stopping points x drop orders with per-kind live-object counters; reference simulation after every case and across worker processes",
-    "96 (quick) / 192 (thorough) generated simulations (3 queue policies, blocked tasks, restarted transit module, panicking receiver, bursts, processing elements; parent/child modules and a ring of busy channels through a transit gate) x every stopping point: builder dropped, built, started and stepped 0..6/12 events, max_itr(k) for every k in both drop orders, 11 time limits. After the last handle is gone every module state, task capture, message body and processing element must have been dropped exactly once; then a reference simulation must reproduce its baseline trace (identical in all worker processes).",
+    "192 (quick) / 384 (thorough) generated simulations (3 queue policies, blocked tasks, restarted transit module, panicking receiver, bursts, processing elements, messages emitted from at_sim_end, a closed gate ring with probed channels; parent/child modules and a ring of busy channels through a transit gate) x every stopping point: builder dropped, built, started and stepped 0..6/12 events, max_itr(k) for every k in both drop orders, 11 (thorough 63) time limits. After the last handle is gone every module state, task capture, message body, processing element and channel probe must have been dropped exactly once; then a reference simulation must reproduce its baseline trace (identical in all worker processes).",
     "User-level reference cycles are outside the alphabet.",
     "DESIGN.md section 4, C20")
